@@ -189,6 +189,14 @@ def gen_C03(g, tier):
                         lines.append(f"{c} nth {i} sl rf {a} 0 {base}")
                         lines.append(f"{c} get {i} sl rf {a} 0 {base}")
                         lines.append(f"{c} show sl one {i} 0 sl rf {a} 0 {base}")
+            # the empty tail &s[len..] / empty head &s[..0] / &s[len..len], also of sub-slices
+            for inner in (base, f"sl r 1 {n - 1} {base}", f"sl rf 2 0 sl rt 0 {n - 1} {base}"):
+                ln_ = n if inner == base else (n - 2 if inner.startswith("sl r 1") else n - 3)
+                lines.append(f"{c} show sl rf {ln_} 0 {inner}")
+                lines.append(f"{c} show sl r {ln_} {ln_} {inner}")
+                lines.append(f"{c} show sl rt 0 0 {inner}")
+                lines.append(f"{c} len sl rf {ln_} 0 {inner}")
+                lines.append(f"{c} show sl ri {ln_} {ln_ - 1} {inner}" if ln_ >= 1 else f"{c} show sl full 0 0 {inner}")
             # out of bounds just past the end, reversed bounds
             for (A, B) in [(0, n + 1), (0, n + 2), (n, n + 1), (n + 1, n + 1), (n + 1, n + 2), (2, 1), (n, n - 1), (n + 1, 0)]:
                 for f in ("r", "ri", "rt", "rti", "rf", "one"):
@@ -515,6 +523,8 @@ def gen_C11(g, tier):
                         for over in (n, n + 1, n + 3):
                             lines.append(f"{c} adapt {kind} {wd} {ad} {over} {sl}")
                     lines.append(f"{c} adapt {kind} {wd} {ad} {arg} {sl}")
+            for arg in sorted({0, 1, 2, n // 2, n, n + 1}):
+                lines.append(f"{c} adapt iter 1 collectseq {arg} {sl}")
             lines.append(f"{c} intoiterv p str {hx(t)}")
             lines.append(f"{c} chunksvec 2 p str {hx(t)}")
             lines.append(f"{c} windows 0 p str {hx(t)}")
@@ -1110,6 +1120,12 @@ def gen_C20(g, tier):
             lines.append(f"{c} show mask revcomp {base}")
             lines.append(f"{c} show unmask mask {base}")
             lines.append(f"{c} show unmask {base}")
+        for k in (1, 3, per // 2 + 1, per - 1):
+            t = g.text(c, per + 7)
+            for op in ("tomask", "tounmask", "mask", "unmask"):
+                lines.append(f"{c} show {op} remove r 0 {k} p str {hx(t)}")
+                lines.append(f"{c} show {op} clone remove rt 0 {k} p str {hx(t)}")
+            lines.append(f"{c} show tounmask tomask remove r 0 {k} p str {hx(t)}")
         for n in ([1023, 1025, 2051] if tier == "quick" else [1023, 1024, 1025, 2047, 2051, 4099]):
             t = g.text(c, n)
             for op in ("tomask", "tounmask", "mask", "unmask"):
